@@ -61,6 +61,9 @@ def firstRow (lines : List String) : Option (List String) :=
 /-- dtype_from_name, as the generated finite table -/
 def dtypeName (s : String) : Option String := (Gen.DtypeNames.accepted.find? (fun e => e.1 == s)).map (·.2)
 
+/-- read_old_image_features_csv (after the D22 fix): the name must be a single path component -/
+def nameOK (n : String) : Bool := !(n.contains '/') && !(n.contains '\\') && n != "." && n != ".."
+
 def cfgLines (header : String) (row : List String) : List String :=
   [Gen.Headers.formatLine, header, ", ".intercalate row]
 
@@ -134,6 +137,7 @@ def plan (p : Params) (t : Tree) : Except Err Plan := do
     | some ls =>
       match firstRow ls with
       | some [name, dt, ds] =>
+        if !nameOK name then throw (Err.valueError name) else
         match dtypeName dt with
         | none => throw (Err.valueError dt)
         | some dtn =>
@@ -152,6 +156,7 @@ def plan (p : Params) (t : Tree) : Except Err Plan := do
       match kpType, firstRow ls with
       | none, _ => throw (Err.assertion "keypoints_type")
       | some kt, some [name, dt, ds] =>
+        if !nameOK name then throw (Err.valueError name) else
         match dtypeName dt with
         | none => throw (Err.valueError dt)
         | some dtn =>
@@ -178,6 +183,7 @@ def plan (p : Params) (t : Tree) : Except Err Plan := do
     | some ls =>
       match firstRow ls with
       | some [name, dt, ds] =>
+        if !nameOK name then throw (Err.valueError name) else
         match dtypeName dt with
         | none => throw (Err.valueError dt)
         | some dtn =>
